@@ -39,8 +39,9 @@ def main():
             m["detected_by_quick_checks"] = fired
             m["repo_commit_evaluated"] = subprocess.check_output(["git", "-C", "/repo", "log", "--format=%h", "-1"], text=True).strip()
             json.dump(m, open(mp, "w"), indent=1)
-            rows.append((sid, m["breaks_property"], fired, inc, m["needs_to_manifest"]))
-            print(sid, m["breaks_property"], "own" if m["breaks_property"] in fired else "MISSED-BY-OWN", fired, inc, flush=True)
+            prop = m.get("effective_property", m["breaks_property"])
+            rows.append((sid, prop, fired, inc, m["needs_to_manifest"]))
+            print(sid, prop, "own" if prop in fired else "MISSED-BY-OWN", fired, inc, flush=True)
     if not args:
         with open(os.path.join(VERIF, "seeded", "MATRIX.md"), "w") as f:
             f.write("| seed | breaks | caught by own check | all quick checks that fire | needs to manifest |\n|---|---|---|---|---|\n")
